@@ -64,10 +64,18 @@ CONFIG = {
                         "beyond the bound"],
     },
     "C10": {
-        "level": "exploration", "proof": False, "rtc": True,
-        "explanation": "Bounded run-time contract: real Pseudotrajectory / readers / PtWriter on arbitrary (M,7) arrays and real grids for 5-7 "
-                       "molecule pairs against an independent numpy placement (hand-coded quaternion matrix).",
-        "assumptions": ["MDAnalysis masses, Merge and MemoryReader behave as documented"],
+        "level": "other", "proof": True, "rtc": True,
+        "explanation": "Proved (data flow, symbolic number of rows): Pseudotrajectory.generate_pseudotrajectory yields exactly one item per "
+                       "grid row with index k in row order; item k is Merge(molecule 1 untouched, translate(rotate(reference geometry "
+                       "at construction, as_matrix(from_quat(row k[3:7])), about the reference's centre of mass), row k[0:3])) -- loop "
+                       "invariant incl. the per-frame reset and the untouched reference copy; MDAnalysis and scipy Rotation calls are "
+                       "uninterpreted functions. Bounded (what those functions compute): real runs with 5-7 molecule pairs on "
+                       "arbitrary (M,7) arrays, non-periodic repeats, real grids, reader histories, against an independent numpy "
+                       "placement with a hand-coded quaternion matrix.",
+        "trusted_base": ["ASSUMED library contracts (pyvc/lib_mda.py): AtomGroup.positions getter copies, setter copies in, rotate / "
+                         "translate act in place, center_of_mass, Merge snapshots both groups in argument order, Rotation.from_quat / "
+                         "as_matrix -- all uninterpreted"],
+        "assumptions": ["MDAnalysis masses, Merge and MemoryReader behave as documented", "get_pt_as_universe and the readers are bounded only"],
     },
     "C11": {
         "level": "other", "proof": True, "rtc": True,
